@@ -5,8 +5,9 @@
      rebalance ver ns p r olds nodes   model of getRebalancedNamespacePartitions; nodes = the node map as a
                                        list of (id, dc tag) in any order; result Ok layout | Refuse | Panic
      valid_layout live p r l           l has p lists, each of length r, duplicate-free, members of live
-     olds_ok p r olds                  the previous layout has <= p lists, each duplicate-free and <= r long
-                                       (what node loss / addition produces from a valid layout)
+     olds_ok p olds                    the previous layout has <= p lists, each duplicate-free, of ANY length
+                                       (ISR lists are longer than r while a node is being moved or after the
+                                       replica count was lowered; the code trims them since /repo 8ac1883)
      is_v2 ver                         the balance-version string selects the incremental algorithm
      even_topology nodes k             every data centre that occurs has exactly k nodes
      dcs_of nodes / node_dc nodes x    the sorted data-centre names / the data centre of node x  *)
@@ -16,7 +17,7 @@ Open Scope nat_scope.
 
 (* (1) refusal exactly when there are fewer nodes than replicas (never a degraded layout, never a panic) *)
 Theorem C17_refuse_iff : forall ver ns p r olds nodes,
-  NoDup (map fst nodes) -> ~ In [] (map fst nodes) -> nodes <> [] -> olds_ok (N.to_nat p) (N.to_nat r) olds ->
+  NoDup (map fst nodes) -> ~ In [] (map fst nodes) -> nodes <> [] -> olds_ok (N.to_nat p) olds ->
   (rebalance ver ns p r olds nodes = Refuse <-> (N.of_nat (length nodes) < r)%N).
 Proof. exact rebalance_refuse_iff'. Qed.
 Print Assumptions C17_refuse_iff.
@@ -25,7 +26,7 @@ Print Assumptions C17_refuse_iff.
    loss/addition: a layout is produced; every partition has exactly r distinct live replicas *)
 Theorem C17_layout_valid : forall ver ns p r olds nodes,
   NoDup (map fst nodes) -> ~ In [] (map fst nodes) -> nodes <> [] ->
-  (r <= N.of_nat (length nodes))%N -> olds_ok (N.to_nat p) (N.to_nat r) olds ->
+  (r <= N.of_nat (length nodes))%N -> olds_ok (N.to_nat p) olds ->
   exists l, rebalance ver ns p r olds nodes = Ok l /\ valid_layout (map fst nodes) (N.to_nat p) (N.to_nat r) l.
 Proof. exact rebalance_valid. Qed.
 Print Assumptions C17_layout_valid.
@@ -43,7 +44,7 @@ Print Assumptions C17_chain_valid.
    the fill phase and preserved by every moveIfUnbalanced step, which never panics *)
 Theorem C17_v2_fill_establishes_invariant : forall h p r olds (ring : list (list N)),
   NoDup ring -> ~ In [] ring -> r <= length ring ->
-  length olds <= p -> Forall (fun o => length o <= r /\ NoDup o) olds ->
+  length olds <= p -> Forall (fun o => NoDup o) olds ->
   exists ls parts, v2_fill_phase h p r olds ring = Ok (ls, parts) /\ names ls = ring /\
     length parts = p /\ Forall (list_ok ring r) parts /\ cons ls (part_at parts).
 Proof. exact v2_fill_phase_ok. Qed.
@@ -168,16 +169,22 @@ Example C17_ex_v2_chain :
   exists l0 l1,
     rebalance balance_v2_str [110;115] 4 3 [] ex_nodes = Ok l0 /\
     rebalance balance_v2_str [110;115] 4 3 l0 (filter (fun nt => negb (bytes_eqb (fst nt) [98;49])) ex_nodes) = Ok l1 /\
-    olds_ok 4%nat 3%nat l0 /\ l0 <> l1.
+    olds_ok 4%nat l0 /\ l0 <> l1.
 Proof.
   eexists. eexists. split; [vm_compute; reflexivity|]. split; [vm_compute; reflexivity|].
   split; [|discriminate]. split; [simpl; lia|].
-  repeat (constructor; [split; [simpl; lia|repeat (constructor; [intros H; simpl in H; repeat (destruct H as [H|H]; [discriminate|]); exact H|]); constructor]|]). constructor.
+  repeat (constructor; [repeat (constructor; [intros H; simpl in H; repeat (destruct H as [H|H]; [discriminate|]); exact H|]); constructor|]). constructor.
 Qed.
-(* refusal is reachable, and so is the Panic outcome outside the hypotheses (replication factor lowered
-   below the length of an old list whose leader died: DESIGN.md L1) *)
+(* refusal is reachable; an old list longer than r whose leader died and which covers every live node — the
+   input on which the code used to panic (DESIGN.md L1, fixed in /repo 8ac1883) — now yields a layout that
+   reuses the surplus member; the Panic outcome stays reachable outside the hypotheses (more old lists than
+   partitions: partitionNodes[pid] out of range in moveIfUnbalanced) *)
 Example C17_ex_refuse : rebalance balance_v2_str [110;115] 4 7 [] ex_nodes = Refuse.
 Proof. vm_compute. reflexivity. Qed.
+Example C17_ex_overlong_old_list :
+  rebalance balance_v2_str [110;115] 1 2 [[[120];[98;49];[98;50]]] [([98;49], TagAbsent); ([98;50], TagAbsent)]
+  = Ok [[[98;50];[98;49]]].
+Proof. vm_compute. reflexivity. Qed.
 Example C17_ex_panic_outside_hypotheses :
-  rebalance balance_v2_str [110;115] 1 2 [[[120];[98;49];[98;50]]] [([98;49], TagAbsent); ([98;50], TagAbsent)] = Panic.
+  rebalance balance_v2_str [110;115] 1 1 [[[98;49]];[[98;49]];[[98;49]];[[98;49]]] [([98;49], TagAbsent); ([98;50], TagAbsent)] = Panic.
 Proof. vm_compute. reflexivity. Qed.
